@@ -394,6 +394,24 @@ function withJsdoc(src, rng) { return src.split("\n").map((l) => (/^(type|interf
 export function genRewrite(rng, params) {
   const p = genProg(rng);
   const nvals = Number(params[0] || 12);
+  if (rng.chance(1, 10)) {
+    // a tuple that reaches the semantic engine BY NAME (Exclude, indexed access, a conditional type) against the same tuple
+    // written in place: a named tuple without a rest element is as closed as an inline one
+    const generic = rng.chance(1, 2), withRest = rng.chance(1, 4);
+    const items = rng.pick([[A("string"), A("number")], [A("string")], [A("number"), A("boolean"), A("string")]]);
+    const rest = withRest ? A("boolean") : A("none");
+    const body = [A("tuple"), items, rest];
+    const decl = generic ? [A("alias"), "Pair", items.map((_, i) => "P" + i), [A("tuple"), items.map((_, i) => [A("ref"), "P" + i]), rest]] : [A("alias"), "Pair", [], body];
+    const use = generic ? [A("ref"), "Pair", ...items] : [A("ref"), "Pair"];
+    const op = rng.below(4);
+    const mk = (t) => op === 0 ? [A("bi"), "Exclude", [A("union"), t, A("null")], A("null")] : op === 1 ? [A("idx"), t, A("number")]
+      : op === 2 ? [A("cond"), t, body, [A("lit"), [A("s"), "yes"]], [A("lit"), [A("s"), "no"]]] : [A("bi"), "Exclude", [A("union"), t, A("string")], [A("array"), A("boolean")]];
+    const ds = [...p[1].filter((d) => d[1] !== "Pair"), decl];
+    const p1 = [p[0], ds, [["EX", mk(use)]]], q1 = [p[0], ds, [["EX", mk(body)]]];
+    const member = items.map((t) => (t.s === "string" ? "a" : t.s === "number" ? 1 : true));
+    const vals = [member, [...member, true], [...member, "x"], member.slice(0, -1), "yes", "no", true, null, 1, "a", [], [true], { 0: "a", 1: 1 }];
+    return [A("rewrite"), A(String(counter++)), p1, [["entry.ts", tsOfProg(p1)]], vals.map(encVal), q1, [["entry.ts", tsOfProg(q1)]], [A("inline-alias")]];
+  }
   // twins that differ only in the optionality of an index signature's value (`Record<K, V>` next to `Partial<Record<K, V>>`):
   // validators the printer hoists and shares must not be shared between the two
   if (rng.chance(1, 10)) {
